@@ -2,6 +2,11 @@
 
 package core
 
+// The stored form of a location record is the default DER encoding of the struct: the codec contracts assumed in
+// /verif/specs (Unmarshal(Marshal(v)) == v) speak about structs whose only tagged field, if any, is the last one; two adjacent optional strings cannot be
+// told apart when one is left out.
+//@ forbid_tags[C18] CRLLocations: stored records use the default encoding (at most a tagged optional last field) that the assumed round trip of encoding/asn1 covers
+
 //@ spec func chainsOK(c ref) bool = c != nil && (forall a int, b int :: {elem(elem(c.CertificateChainList, a).CertificateChainEntryList, b)} offset(c.CertificateChainList) <= a && a < offset(c.CertificateChainList) + len(c.CertificateChainList) && offset(elem(c.CertificateChainList, a).CertificateChainEntryList) <= b && b < offset(elem(c.CertificateChainList, a).CertificateChainEntryList) + len(elem(c.CertificateChainList, a).CertificateChainEntryList) ==> elem(elem(c.CertificateChainList, a).CertificateChainEntryList, b).Certificate != nil && elem(elem(c.CertificateChainList, a).CertificateChainEntryList, b).Certificate.SerialNumber != nil && elem(elem(c.CertificateChainList, a).CertificateChainEntryList, b).RawCertificate != nil)
 
 //@ func CertificateChains.AddCertificateChain
